@@ -87,6 +87,15 @@ func PickHosts(ch *core.Chooser) []string {
 	for i := 0; i < hot; i++ {
 		hs = append(hs, hs[0])
 	}
+	// case theme: now and then one host also appears in capitals, in rules
+	// and in requests (state keyed case-insensitively but kept as first
+	// spelled)
+	if ch.Intn("hosts.case", 6) == 5 {
+		hs = append(hs, strings.ToUpper(hs[0]))
+		if len(hs) > 3 {
+			hs = append(hs, strings.ToUpper(hs[1][:1])+hs[1][1:])
+		}
+	}
 	return hs
 }
 
@@ -97,6 +106,7 @@ func SwarmKinds(ch *core.Chooser, kinds []int) []int {
 	if ch.Intn("swarm.on", 3) == 0 {
 		return kinds
 	}
+	kinds = append([]int{}, kinds...)
 	var keep [numKinds]bool
 	n := 0
 	for k := 0; k < numKinds; k++ {
@@ -112,7 +122,17 @@ func SwarmKinds(ch *core.Chooser, kinds []int) []int {
 		}
 	}
 	if n < 3 {
-		return kinds
+		out = kinds
+	}
+	// focus: one kind takes a large share of this run's lines, so that many
+	// rules of one kind pile up (a $domain bucket with several entries, a
+	// host with a dozen hosts-file lines, a stack of rewrites)
+	if ch.Intn("swarm.focus", 2) == 1 {
+		f := out[ch.Intn("swarm.focuskind", len(out))]
+		out = append([]int{}, out...)
+		for i := 0; i < len(out)/2+3; i++ {
+			out = append(out, f)
+		}
 	}
 	return out
 }
@@ -151,6 +171,7 @@ const (
 	KBlank
 	KInvalid
 	KWildHostPrefix
+	KHostBlock
 	numKinds
 )
 
@@ -158,7 +179,7 @@ const (
 var (
 	DNSKinds = []int{KBlock, KBlock, KBlockImportant, KAllow, KAllowImportant, KClient, KClient, KCtag, KCtag, KDNSType, KDNSType,
 		KDenyAllow, KRewrite, KRewrite, KRewrite, KRewriteException, KBadfilter, KRegex, KBadRegex, KHostV4, KHostV4, KHostV6, KBareDomain,
-		KComment, KBlank, KInvalid, KWildHostPrefix}
+		KComment, KBlank, KInvalid, KWildHostPrefix, KHostBlock}
 	WebKinds = []int{KBlock, KAllow, KBlockImportant, KWebPath, KWebPath, KWebTyped, KWebTyped, KWebDomain, KWebDomain, KWebThirdParty,
 		KWebDocAllow, KWebDocAllow, KWebMatchCase, KBadfilter, KRegex, KBadRegex, KCosmetic, KCosmetic, KCosmeticException, KComment, KInvalid, KRewrite}
 	AllKinds = append(append([]int{}, DNSKinds...), WebKinds...)
@@ -246,6 +267,19 @@ func GenRule(ch *core.Chooser, k int, hosts []string, prev []string) string {
 	case KHostV6:
 		ip := []string{"::", "::1", "2001:db8::1"}[ch.Intn("rule.ip6", 3)]
 		return ip + " " + h
+	case KHostBlock:
+		// many hosts-file lines for ONE name (buckets with more than a
+		// handful of entries), v4 and v6 mixed
+		var ls []string
+		n := 9 + ch.Intn("rule.blockn", 6)
+		for i := 0; i < n; i++ {
+			if i%4 == 3 {
+				ls = append(ls, fmt.Sprintf("2001:db8::%x %s", i+1, h))
+			} else {
+				ls = append(ls, fmt.Sprintf("10.77.0.%d %s", i+1, h))
+			}
+		}
+		return strings.Join(ls, "\n")
 	case KBareDomain:
 		return h
 	case KWebPath:
@@ -256,7 +290,15 @@ func GenRule(ch *core.Chooser, k int, hosts []string, prev []string) string {
 		return pre + h + "^$" + pick(ch, "rule.type", typeOpts)
 	case KWebDomain:
 		d := pick(ch, "rule.host2", hosts)
-		switch ch.Intn("rule.domainform", 7) {
+		switch ch.Intn("rule.domainform", 10) {
+		case 7:
+			// patterns too short for the shortcuts table: these rules live
+			// in the $domain table
+			return []string{"/ad^", "ad*", "|ws", "=1"}[ch.Intn("rule.shortpat", 4)] + "$domain=" + d
+		case 8:
+			return "/ad^$domain=" + d + "|" + pick(ch, "rule.host3", hosts)
+		case 9:
+			return "@@/ad^$domain=" + d
 		case 4:
 			return "*$image,domain=" + d
 		case 5:
